@@ -166,6 +166,15 @@ PROPS = {
              "thorough": {"checks": 1, "shards": 2, "timeout": 2400}},
         ],
     },
+    "C20": {
+        "level": "exploration",
+        "jobs": [
+            {"test": "TestC20", "variant": "race", "case_timeout": 200,
+             "env": {"GORACE": "log_path={rundir}/race halt_on_error=0"},
+             "quick": {"checks": 14, "shards": 14, "timeout": 500},
+             "thorough": {"checks": 300, "shards": 16, "timeout": 3000}},
+        ],
+    },
     "C13": {
         "level": "exploration",
         "jobs": [
